@@ -176,6 +176,45 @@ func c09AggrItems() []c09Aggr {
 			return arith("-", c09Fold("max", vs), c09Fold("min", vs))
 		}})
 	}
+	// the raw values, some reading as integers and some as floats: the sum and
+	// the average are those of all the numbers (a float as soon as one of them is)
+	mixed := func(ps []store.Pair) ([]ref.Val, bool) {
+		out := make([]ref.Val, len(ps))
+		anyF := false
+		for i, p := range ps {
+			if n, ok := ref.ParseIntText(p.V); ok {
+				out[i] = ref.I(n)
+			} else if f, ok := ref.ParseFloatText(p.V); ok {
+				out[i] = ref.F(f)
+				anyF = true
+			} else {
+				return nil, false
+			}
+		}
+		if anyF {
+			for i := range out {
+				out[i] = ref.F(out[i].Num())
+			}
+		}
+		return out, true
+	}
+	for _, fn := range []string{"sum", "avg"} {
+		fn := fn
+		out = append(out, c09Aggr{fn + "(value)", "mixed", func(ps []store.Pair) (ref.Val, bool) {
+			vs, ok := mixed(ps)
+			if !ok {
+				return ref.Val{}, false
+			}
+			return c09Fold(fn, vs), true
+		}})
+	}
+	out = append(out, c09Aggr{"sum(value) * 2", "mixed", func(ps []store.Pair) (ref.Val, bool) {
+		vs, ok := mixed(ps)
+		if !ok {
+			return ref.Val{}, false
+		}
+		return arith("*", c09Fold("sum", vs), ref.I(2))
+	}})
 	out = append(out, c09Aggr{"group_concat(value, ',')", "", func(ps []store.Pair) (ref.Val, bool) {
 		parts := make([]string, len(ps))
 		for i, p := range ps {
@@ -235,6 +274,8 @@ var c09Universes = []c09Universe{
 	{"bigint", []string{"a", "a1", "b", "b1"}, []string{"9007199254740993", "9007199254740992", "9007199254740994", "-9007199254740993"}, "int"},
 	// floats that agree in their first six decimals
 	{"nearfloat", []string{"a", "a1", "b", "b1"}, []string{"0.12345671", "0.12345672", "1.5", "-0.5"}, "float"},
+	// integers and floats side by side (only sum / avg / count of the raw values are defined on it)
+	{"mixed", []string{"a", "a1", "b", "b1"}, []string{"10", "0.5", "3", "2.25"}, "mixed"},
 	// empty values and (through substr) empty group values: ('', 'b') and ('b', '') are different tuples
 	{"empties", []string{"a", "ab", "b", "bc"}, []string{"", "b", "c"}, ""},
 }
@@ -344,6 +385,9 @@ func c09Units(t core.Tier) []c09Unit {
 			}
 		}
 		for u := range c09Universes {
+			if c09Universes[u].name == "mixed" && len(g) > 1 {
+				continue // (the mixed universe: at most one grouping expression)
+			}
 			if ne > 0 || c09Universes[u].name == "empties" {
 				// the possibly-empty expression only on the universe with empty
 				// values, and that universe only with it, value, upper(value) and key
